@@ -228,27 +228,104 @@ Definition note_emit (st : state) (sig p : N) (x : sub) : sub :=
 Definition release (g : scfg) (st : state) (c : nat) (sig : N) : state :=
   set_cl st c (with_lock (cl st c) sig false).
 
+(* ---- the state after each kind of transition (guards are in [step]) ---- *)
+Definition no_user : user := {| u_uid := 0; u_sig := 0; u_mid := 0; u_conn := O |}.
+Definition new_sub (st : state) (c : nat) (sig : N) : sub :=
+  {| s_conn := c; s_sig := sig; s_pc := PInstalled; s_queue := []; s_got := [];
+     s_skip := inflight st c sig; s_all := []; s_pre := []; s_win := []; s_ackd := false |}.
+Definition st_install (st : state) (c : nat) (sig : N) : state :=
+  {| subs := subs st ++ [new_sub st c sig]; cl := cl st; up := up st; down := down st; table := table st; pend := pend st;
+     emit := emit st; dead := dead st; stuck := stuck st; overflow := overflow st;
+     nconn := Nat.max (nconn st) (S c);
+     dlog := dlog st; ulog := ulog st; elog := elog st; race17 := race17 st |}.
+(* State(key,+1) = 1: the caller must register remotely *)
+Definition st_count_first (st : state) (s : nat) (x : sub) : state :=
+  let c := s_conn x in let sig := s_sig x in let k := cl st c in
+  set_sub (set_cl (set_race st (c_lock k sig)) c (with_lock (with_count k sig 1) sig true)) s (with_pc x PNeedReg).
+(* State(key,+1) > 1: SubscribeID returns at once *)
+Definition st_count_more (st : state) (s : nat) (x : sub) : state :=
+  let c := s_conn x in let sig := s_sig x in let k := cl st c in
+  set_sub (set_cl (set_race st (c_lock k sig)) c (with_count k sig (S (c_count k sig)))) s (acked x).
+Definition st_send_reg (st : state) (s : nat) (x : sub) (h : N) : state :=
+  let c := s_conn x in let sig := s_sig x in let k := cl st c in
+  let m := c_mid k + 2 in
+  let k' := {| c_count := c_count k; c_hid := nupd (c_hid k) sig (c_hid k sig + h); c_lock := c_lock k;
+               c_mid := m; c_drawn := h :: c_drawn k |} in
+  set_sub (push_up (set_cl st c k') c (UReg m sig h)) s (with_pc x (PWaitReg m)).
+(* the mailbox goroutine has taken the head of up c and done its table operation *)
+Definition st_mbox (st : state) (c : nat) (rest : list uframe) (t : list user) (p : option (nat * dframe * option N)) : state :=
+  {| subs := subs st; cl := cl st; up := fupd (up st) c rest; down := down st; table := t;
+     pend := p; emit := emit st; dead := dead st; stuck := stuck st; overflow := overflow st;
+     nconn := nconn st; dlog := dlog st; ulog := ulog st; elog := elog st; race17 := race17 st |}.
+(* RemoveHandler(existing) holds that endpoint's mutex; its closer removes the existing entry and
+   calls RemoveHandler again: the mailbox goroutine never returns *)
+Definition st_mbox_deadlock (st : state) (c : nat) (rest : list uframe) (i : nat) : state :=
+  {| subs := subs st; cl := cl st; up := fupd (up st) c rest; down := down st;
+     table := swap_remove (table st) i; pend := None; emit := emit st; dead := true;
+     stuck := fupd (stuck st) (u_conn (nth i (table st) no_user)) true; overflow := overflow st; nconn := nconn st;
+     dlog := dlog st; ulog := ulog st; elog := elog st; race17 := race17 st |}.
+Definition st_reply (st : state) (c : nat) (f : dframe) (note : option N) : state :=
+  let st1 := push_down st c f note in
+  {| subs := subs st1; cl := cl st1; up := up st1; down := down st1; table := table st1; pend := None;
+     emit := emit st1; dead := dead st1; stuck := stuck st1; overflow := overflow st1; nconn := nconn st1;
+     dlog := dlog st1; ulog := ulog st1; elog := elog st1; race17 := race17 st1 |}.
+Definition st_emit_snap (st : state) (sig p : N) : state :=
+  {| subs := map (note_emit st sig p) (subs st); cl := cl st; up := up st; down := down st; table := table st;
+     pend := pend st; emit := mk_emit sig p (filter (fun u => u_sig u =? sig) (table st));
+     dead := dead st; stuck := stuck st; overflow := overflow st; nconn := nconn st;
+     dlog := dlog st; ulog := ulog st; elog := elog st ++ [(sig, p)]; race17 := race17 st |}.
+Definition st_emit_send (st : state) (sig p : N) (u : user) (us : list user) : state :=
+  let st1 := push_down st (u_conn u) (DEvent sig (u_mid u) p) None in
+  {| subs := subs st1; cl := cl st1; up := up st1; down := down st1; table := table st1; pend := pend st1;
+     emit := mk_emit sig p us; dead := dead st1; stuck := stuck st1; overflow := overflow st1;
+     nconn := nconn st1; dlog := dlog st1; ulog := ulog st1; elog := elog st1; race17 := race17 st1 |}.
+(* the client endpoint has read the head of down c *)
+Definition st_pop_down (st : state) (c : nat) (rest : list dframe) : state :=
+  {| subs := subs st; cl := cl st; up := up st; down := fupd (down st) c rest; table := table st;
+     pend := pend st; emit := emit st; dead := dead st; stuck := stuck st; overflow := overflow st;
+     nconn := nconn st; dlog := dlog st; ulog := ulog st; elog := elog st; race17 := race17 st |}.
+Definition st_recv_event (st : state) (c : nat) (rest : list dframe) (sig p : N) : state :=
+  let st1 := st_pop_down st c rest in
+  {| subs := fst (dispatch_event c sig p (subs st)); cl := cl st1; up := up st1; down := down st1; table := table st1;
+     pend := pend st1; emit := emit st1; dead := dead st1; stuck := stuck st1;
+     overflow := overflow st1 || snd (dispatch_event c sig p (subs st));
+     nconn := nconn st1; dlog := dlog st1; ulog := ulog st1; elog := elog st1; race17 := race17 st1 |}.
+(* the answer to a call of subscriber s has been dispatched: the call returns *)
+Definition st_recv_answer (g : scfg) (st : state) (c : nat) (rest : list dframe) (s : nat) (x : sub) (x' : sub) : state :=
+  set_sub (release g (st_pop_down st c rest) c (s_sig x)) s x'.
+Definition st_cancel_last (st : state) (s : nat) (x : sub) : state :=
+  let c := s_conn x in let sig := s_sig x in let k := cl st c in
+  set_sub (set_cl (set_race st (c_lock k sig)) c (with_lock (with_count k sig 0) sig true)) s (with_pc x PNeedUnreg).
+Definition st_cancel_more (st : state) (s : nat) (x : sub) : state :=
+  let c := s_conn x in let sig := s_sig x in let k := cl st c in
+  set_sub (set_cl (set_race st (c_lock k sig)) c (with_count k sig (Nat.pred (c_count k sig)))) s (with_pc x PAborting).
+Definition st_send_unreg (st : state) (s : nat) (x : sub) : state :=
+  let c := s_conn x in let sig := s_sig x in let k := cl st c in
+  let m := c_mid k + 2 in
+  let k' := {| c_count := c_count k; c_hid := nupd (c_hid k) sig 0; c_lock := c_lock k;
+               c_mid := m; c_drawn := c_drawn k |} in
+  set_sub (push_up (set_cl st c k') c (UUnreg m sig (c_hid k sig))) s (with_pc x (PWaitUnreg m)).
+Definition sub_deliver (x : sub) (p : N) (q : list N) : sub :=
+  {| s_conn := s_conn x; s_sig := s_sig x; s_pc := s_pc x; s_queue := q; s_got := s_got x ++ [p];
+     s_skip := s_skip x; s_all := s_all x; s_pre := s_pre x; s_win := s_win x; s_ackd := s_ackd x |}.
+Definition sub_close (x : sub) : sub :=
+  {| s_conn := s_conn x; s_sig := s_sig x; s_pc := PClosed; s_queue := []; s_got := s_got x;
+     s_skip := s_skip x; s_all := s_all x; s_pre := s_pre x; s_win := s_win x; s_ackd := s_ackd x |}.
+
+Definition emitting (st : state) : bool := match emit st with Some _ => true | None => false end.
+
 Definition step (g : scfg) (st : state) (l : label) : option state :=
   match l with
-  | LInstall c sig =>
-      let x := {| s_conn := c; s_sig := sig; s_pc := PInstalled; s_queue := []; s_got := [];
-                  s_skip := inflight st c sig; s_all := []; s_pre := []; s_win := []; s_ackd := false |} in
-      Some {| subs := subs st ++ [x]; cl := cl st; up := up st; down := down st; table := table st; pend := pend st;
-              emit := emit st; dead := dead st; stuck := stuck st; overflow := overflow st;
-              nconn := Nat.max (nconn st) (S c);
-              dlog := dlog st; ulog := ulog st; elog := elog st; race17 := race17 st |}
+  | LInstall c sig => Some (st_install st c sig)
   | LCount s =>
       match nth_error (subs st) s with
       | Some x =>
           match s_pc x with
           | PInstalled =>
-              let c := s_conn x in let sig := s_sig x in let k := cl st c in
-              if may_enter g k sig then
-                let n := S (c_count k sig) in
-                let st1 := set_race st (c_lock k sig) in
-                if Nat.eqb n 1
-                then Some (set_sub (set_cl st1 c (with_lock (with_count k sig n) sig true)) s (with_pc x PNeedReg))
-                else Some (set_sub (set_cl st1 c (with_count k sig n)) s (acked x))
+              if may_enter g (cl st (s_conn x)) (s_sig x) then
+                if Nat.eqb (c_count (cl st (s_conn x)) (s_sig x)) 0
+                then Some (st_count_first st s x)
+                else Some (st_count_more st s x)
               else None
           | _ => None
           end
@@ -259,13 +336,8 @@ Definition step (g : scfg) (st : state) (l : label) : option state :=
       | Some x =>
           match s_pc x with
           | PNeedReg =>
-              let c := s_conn x in let sig := s_sig x in let k := cl st c in
-              if negb (h =? 0) && negb (existsb (N.eqb h) (c_drawn k)) then
-                let m := c_mid k + 2 in
-                let k' := {| c_count := c_count k; c_hid := nupd (c_hid k) sig (c_hid k sig + h); c_lock := c_lock k;
-                             c_mid := m; c_drawn := h :: c_drawn k |} in
-                Some (set_sub (push_up (set_cl st c k') c (UReg m sig h)) s (with_pc x (PWaitReg m)))
-              else None
+              if negb (h =? 0) && negb (existsb (N.eqb h) (c_drawn (cl st (s_conn x))))
+              then Some (st_send_reg st s x h) else None
           | _ => None
           end
       | None => None
@@ -274,36 +346,21 @@ Definition step (g : scfg) (st : state) (l : label) : option state :=
       if dead st || stuck st c then None else
       match pend st, up st c with
       | None, f :: rest =>
-          if negb (snapshot_send g) && match emit st with Some _ => true | None => false end then None else
-          let st1 := {| subs := subs st; cl := cl st; up := fupd (up st) c rest; down := down st; table := table st;
-                        pend := pend st; emit := emit st; dead := dead st; stuck := stuck st; overflow := overflow st;
-                        nconn := nconn st; dlog := dlog st; ulog := ulog st; elog := elog st; race17 := race17 st |} in
-          let with_table t p :=
-            {| subs := subs st1; cl := cl st1; up := up st1; down := down st1; table := t;
-               pend := p; emit := emit st1; dead := dead st1; stuck := stuck st1; overflow := overflow st1;
-               nconn := nconn st1; dlog := dlog st1; ulog := ulog st1; elog := elog st1; race17 := race17 st1 |} in
+          if negb (snapshot_send g) && emitting st then None else
           match f with
           | UReg m sig uid =>
               match find_idx (same_user g c uid) (table st) with
-              | None => Some (with_table (table st ++ [{| u_uid := uid; u_sig := sig; u_mid := m; u_conn := c |}])
-                                         (Some (c, DReply A_register m, None)))
+              | None => Some (st_mbox st c rest (table st ++ [{| u_uid := uid; u_sig := sig; u_mid := m; u_conn := c |}])
+                                      (Some (c, DReply A_register m, None)))
               | Some i =>
-                  if dup_relock g then
-                    (* RemoveHandler(existing) holds that endpoint's mutex; its closer removes the existing
-                       entry and calls RemoveHandler again: the mailbox goroutine never returns *)
-                    let e := nth i (table st) {| u_uid := 0; u_sig := 0; u_mid := 0; u_conn := O |} in
-                    Some {| subs := subs st1; cl := cl st1; up := up st1; down := down st1;
-                            table := swap_remove (table st) i; pend := None; emit := emit st1; dead := true;
-                            stuck := fupd (stuck st1) (u_conn e) true; overflow := overflow st1; nconn := nconn st1;
-                            dlog := dlog st1; ulog := ulog st1; elog := elog st1; race17 := race17 st1 |}
-                  else Some (with_table (table st) (Some (c, DError A_register m, None)))
+                  if dup_relock g then Some (st_mbox_deadlock st c rest i)
+                  else Some (st_mbox st c rest (table st) (Some (c, DError A_register m, None)))
               end
           | UUnreg m sig uid =>
               match find_idx (is_user c uid) (table st) with
-              | Some i =>
-                  let e := nth i (table st) {| u_uid := 0; u_sig := 0; u_mid := 0; u_conn := O |} in
-                  Some (with_table (swap_remove (table st) i) (Some (c, DReply A_unregister m, Some (u_mid e))))
-              | None => Some (with_table (table st) (Some (c, DError A_unregister m, None)))
+              | Some i => Some (st_mbox st c rest (swap_remove (table st) i)
+                                        (Some (c, DReply A_unregister m, Some (u_mid (nth i (table st) no_user)))))
+              | None => Some (st_mbox st c rest (table st) (Some (c, DError A_unregister m, None)))
               end
           end
       | _, _ => None
@@ -311,55 +368,31 @@ Definition step (g : scfg) (st : state) (l : label) : option state :=
   | LReply =>
       if dead st then None else
       match pend st with
-      | Some (c, f, note) =>
-          let st1 := push_down st c f note in
-          Some {| subs := subs st1; cl := cl st1; up := up st1; down := down st1; table := table st1; pend := None;
-                  emit := emit st1; dead := dead st1; stuck := stuck st1; overflow := overflow st1; nconn := nconn st1;
-                  dlog := dlog st1; ulog := ulog st1; elog := elog st1; race17 := race17 st1 |}
+      | Some (c, f, note) => Some (st_reply st c f note)
       | None => None
       end
-  | LEmitSnap sig p =>
-      match emit st with
-      | Some _ => None
-      | None =>
-          Some {| subs := map (note_emit st sig p) (subs st); cl := cl st; up := up st; down := down st; table := table st;
-                  pend := pend st; emit := mk_emit sig p (filter (fun u => u_sig u =? sig) (table st));
-                  dead := dead st; stuck := stuck st; overflow := overflow st; nconn := nconn st;
-                  dlog := dlog st; ulog := ulog st; elog := elog st ++ [(sig, p)]; race17 := race17 st |}
-      end
+  | LEmitSnap sig p => if emitting st then None else Some (st_emit_snap st sig p)
   | LEmitSend =>
       match emit st with
-      | Some (sig, p, u :: us) =>
-          let st1 := push_down st (u_conn u) (DEvent sig (u_mid u) p) None in
-          Some {| subs := subs st1; cl := cl st1; up := up st1; down := down st1; table := table st1; pend := pend st1;
-                  emit := mk_emit sig p us; dead := dead st1; stuck := stuck st1; overflow := overflow st1;
-                  nconn := nconn st1; dlog := dlog st1; ulog := ulog st1; elog := elog st1; race17 := race17 st1 |}
+      | Some (sig, p, u :: us) => Some (st_emit_send st sig p u us)
       | _ => None
       end
   | LCliRecv c =>
       match down st c with
       | f :: rest =>
-          let st1 := {| subs := subs st; cl := cl st; up := up st; down := fupd (down st) c rest; table := table st;
-                        pend := pend st; emit := emit st; dead := dead st; stuck := stuck st; overflow := overflow st;
-                        nconn := nconn st; dlog := dlog st; ulog := ulog st; elog := elog st; race17 := race17 st |} in
           match f with
-          | DEvent sig _ p =>
-              let '(l', ov) := dispatch_event c sig p (subs st) in
-              Some {| subs := l'; cl := cl st1; up := up st1; down := down st1; table := table st1; pend := pend st1;
-                      emit := emit st1; dead := dead st1; stuck := stuck st1; overflow := overflow st1 || ov;
-                      nconn := nconn st1; dlog := dlog st1; ulog := ulog st1; elog := elog st1; race17 := race17 st1 |}
+          | DEvent sig _ p => Some (st_recv_event st c rest sig p)
           | DReply act m | DError act m =>
               match find_idx (waits c act m) (subs st) with
-              | None => Some st1
+              | None => Some (st_pop_down st c rest)
               | Some s =>
                   match nth_error (subs st) s with
-                  | None => Some st1
+                  | None => Some (st_pop_down st c rest)
                   | Some x =>
-                      let st2 := release g st1 c (s_sig x) in
                       match s_pc x, f with
-                      | PWaitReg _, DReply _ _ => Some (set_sub st2 s (acked x))
-                      | PWaitReg _, _ => Some (set_sub st2 s (with_pc x PFailed))
-                      | _, _ => Some (set_sub st2 s (with_pc x PAborting))
+                      | PWaitReg _, DReply _ _ => Some (st_recv_answer g st c rest s x (acked x))
+                      | PWaitReg _, _ => Some (st_recv_answer g st c rest s x (with_pc x PFailed))
+                      | _, _ => Some (st_recv_answer g st c rest s x (with_pc x PAborting))
                       end
                   end
               end
@@ -371,13 +404,10 @@ Definition step (g : scfg) (st : state) (l : label) : option state :=
       | Some x =>
           match s_pc x with
           | PAcked =>
-              let c := s_conn x in let sig := s_sig x in let k := cl st c in
-              if may_enter g k sig then
-                let n := Nat.pred (c_count k sig) in
-                let st1 := set_race st (c_lock k sig) in
-                if Nat.eqb n 0
-                then Some (set_sub (set_cl st1 c (with_lock (with_count k sig n) sig true)) s (with_pc x PNeedUnreg))
-                else Some (set_sub (set_cl st1 c (with_count k sig n)) s (with_pc x PAborting))
+              if may_enter g (cl st (s_conn x)) (s_sig x) then
+                if Nat.eqb (Nat.pred (c_count (cl st (s_conn x)) (s_sig x))) 0
+                then Some (st_cancel_last st s x)
+                else Some (st_cancel_more st s x)
               else None
           | _ => None
           end
@@ -387,12 +417,7 @@ Definition step (g : scfg) (st : state) (l : label) : option state :=
       match nth_error (subs st) s with
       | Some x =>
           match s_pc x with
-          | PNeedUnreg =>
-              let c := s_conn x in let sig := s_sig x in let k := cl st c in
-              let m := c_mid k + 2 in
-              let k' := {| c_count := c_count k; c_hid := nupd (c_hid k) sig 0; c_lock := c_lock k;
-                           c_mid := m; c_drawn := c_drawn k |} in
-              Some (set_sub (push_up (set_cl st c k') c (UUnreg m sig (c_hid k sig))) s (with_pc x (PWaitUnreg m)))
+          | PNeedUnreg => Some (st_send_unreg st s x)
           | _ => None
           end
       | None => None
@@ -401,9 +426,7 @@ Definition step (g : scfg) (st : state) (l : label) : option state :=
       match nth_error (subs st) s with
       | Some x =>
           match live (s_pc x), s_queue x with
-          | true, p :: q =>
-              Some (set_sub st s {| s_conn := s_conn x; s_sig := s_sig x; s_pc := s_pc x; s_queue := q; s_got := s_got x ++ [p];
-                                    s_skip := s_skip x; s_all := s_all x; s_pre := s_pre x; s_win := s_win x; s_ackd := s_ackd x |})
+          | true, p :: q => Some (set_sub st s (sub_deliver x p q))
           | _, _ => None
           end
       | None => None
@@ -412,9 +435,7 @@ Definition step (g : scfg) (st : state) (l : label) : option state :=
       match nth_error (subs st) s with
       | Some x =>
           match s_pc x with
-          | PAborting =>
-              Some (set_sub st s {| s_conn := s_conn x; s_sig := s_sig x; s_pc := PClosed; s_queue := []; s_got := s_got x;
-                                    s_skip := s_skip x; s_all := s_all x; s_pre := s_pre x; s_win := s_win x; s_ackd := s_ackd x |})
+          | PAborting => Some (set_sub st s (sub_close x))
           | _ => None
           end
       | None => None
